@@ -1,0 +1,33 @@
+//go:build verif
+
+package version
+
+import "go.etcd.io/bbolt"
+
+// Verification hooks (add-only, compiled only with -tags verif): access to the
+// unexported version store through its own functions.
+
+// VerifSetStoredVersion writes v as the stored database version.
+func VerifSetStoredVersion(db *bbolt.DB, v string) error {
+	vs, err := NewVersionStore(db)
+	if err != nil {
+		return err
+	}
+	return vs.SetVersion(v)
+}
+
+// VerifGetStoredVersion reads the stored database version; ok is false when none is stored.
+func VerifGetStoredVersion(db *bbolt.DB) (v string, ok bool, err error) {
+	vs, err := NewVersionStore(db)
+	if err != nil {
+		return "", false, err
+	}
+	v, err = vs.GetVersion()
+	if err == ErrDoesNotExist {
+		return "", false, nil
+	}
+	if err != nil {
+		return "", false, err
+	}
+	return v, true, nil
+}
